@@ -16,6 +16,7 @@ import (
 	"fmt"
 	"os"
 	"os/exec"
+	"runtime"
 	"runtime/debug"
 	"runtime/metrics"
 	"sort"
@@ -497,9 +498,26 @@ func Tick() {
 	_, _ = tickFile.WriteAt(b[:], 8)
 }
 
+var sentinel []byte
+
+// FenceHeap arranges the heap so that the first very large allocation of this process lands in
+// address space that has never been used: Go must clear a span that overlaps previously used
+// memory (seconds for 2 GiB), but gets fresh pages from the OS already zeroed. A 256 MiB block is
+// allocated (never touched), a small block that stays alive is placed after it, and the big block
+// is released: short-lived buffers are then served from the released range, below the fence, and
+// a request too large for that range goes above it.
+func FenceHeap() {
+	t := make([]byte, 256<<20)
+	sentinel = make([]byte, 1<<20)
+	sentinel[0] = t[0]
+	t = nil
+	runtime.GC()
+}
+
 // serve is the worker loop.
 func serve(fn Fn) {
 	debug.SetMaxStack(64 << 20)
+	FenceHeap()
 	pf, err := os.OpenFile(os.Getenv("VERIF_ISO_PROGRESS"), os.O_WRONLY, 0)
 	if err != nil {
 		fmt.Fprintln(os.Stderr, "iso worker: cannot open progress file:", err)
